@@ -20,7 +20,7 @@ REGRESS = os.path.join(ROOT, "regress")
 EVID = os.path.join(ROOT, "evidence")
 KNOWN_FILE = os.path.join(ROOT, "known_findings.txt")
 
-CASE_TIMEOUT = float(os.environ.get("VERIF_CASE_TIMEOUT", "60"))
+CASE_TIMEOUT = float(os.environ.get("VERIF_CASE_TIMEOUT", "25"))
 
 
 class Result:
